@@ -30,8 +30,9 @@ Proof.
     destruct (cs_create _ _ _ _ _ _ _ _ _ _ _ CS) as (rest & cenv & c1 & lc1 & tmpv & c3 & lc3 & c5 & _ & _ & _ & _ & _ & ->).
     cbn [b_mark b_load_label rv_backend app r_load_label]. intros E. apply app_eq_nil in E as [_ E]. discriminate.
   - destruct (cs_invoke _ _ _ _ _ _ _ _ _ _ CS) as (tmpv & d & _ & _ & _ & CD).
-    destruct (Nat.leb (List.length (txtors d)) 1); [subst code; discriminate|]. destruct CD as (k & _ & ->).
-    cbn [b_mark b_add_and_jump rv_backend app]. unfold r_add_and_jump. destruct (addi_fits _); discriminate.
+    destruct (Nat.leb (List.length (txtors d)) 1); [subst code; discriminate|destruct CD as (k & _ & ->)].
+    intros E. apply app_eq_nil in E as [_ E]. cbv [b_add_and_jump rv_backend r_add_and_jump] in E.
+    apply app_eq_nil in E as [_ E]. discriminate.
   - destruct (cs_literal _ _ _ _ _ _ _ _ _ CS) as (tv & c2 & _ & _ & ->). discriminate.
   - destruct (cs_op _ _ _ _ _ _ _ _ _ _ _ CS) as (tv & ta & tb & c2 & _ & _ & _ & _ & ->). destruct o; discriminate.
   - destruct (cs_print rv_backend _ _ _ _ _ _ _ _ CS) as (tv & c2 & _ & NX & ->). cbn [b_mark b_print rv_backend app]. exact (IHs _ _ _ _ NX).
